@@ -48,7 +48,7 @@ def try_label(name, lab):
 
 
 class Canon:
-    def __init__(self, prog, body, roles=None, inline=None, depth=0, parent=None, argmap=None):
+    def __init__(self, prog, body, roles=None, inline=None, depth=0, parent=None, argmap=None, follow=True):
         self.prog, self.b = prog, body
         self.roles = dict(roles or {})
         self.inline = re.compile(inline) if isinstance(inline, str) else inline
@@ -65,8 +65,10 @@ class Canon:
         self.depth = lvl
         self._parent = parent
         self.argmap = argmap
+        self.follow = follow
         self._atoms = None
         self._cap = {}
+        self._hcache = {}
 
     # ---------------------------------------------------------------- expressions
     def x(self, e, d=0):
@@ -217,13 +219,7 @@ class Canon:
         return out
 
     def _inline(self, name, args):
-        idx = getattr(self.prog, "_gs2_idx", None)
-        if idx is None:
-            idx = self.prog._gs2_idx = {}
-        key = self.b.crate
-        if key not in idx:
-            idx[key] = {bb.npath: bb for bb in self.prog.bodies(key) if bb.kind != "closure"}
-        cb = idx[key].get(name)
+        cb = self._local_body(name)
         if cb is None or cb is self.b or cb.argc != len(args):
             return None
         if any(cb.blocks[bi]["term"] and cb.blocks[bi]["term"]["k"] == "switch" for bi in cb.live):
@@ -261,10 +257,75 @@ class Canon:
                     continue
                 c, labs = sw
                 for tgt, ls in labs.items():
-                    for a in atoms_of(c, ls):
+                    for a in self.edge_atoms(c, ls):
                         out.append((bi, tgt, a))
             self._atoms = out
         return self._atoms
+
+    # ---------------------------------------------------------------- one level into crate-local helpers
+    def _local_body(self, name):
+        idx = getattr(self.prog, "_gs2_idx", None)
+        if idx is None:
+            idx = self.prog._gs2_idx = {}
+        key = self.b.crate
+        if key not in idx:
+            idx[key] = {bb.npath: bb for bb in self.prog.bodies(key) if bb.kind != "closure"}
+        return idx[key].get(name)
+
+    def helper(self, call):
+        """Canon of the crate-local callee of canonical call expression `call`, with its parameters bound to the call's arguments
+        (so that everything it renders is expressed in the caller's frame); None for foreign / unknown callees."""
+        if call[0] != "call" or self.follow is False:
+            return None
+        hb = self._local_body(strip_generics(call[1]))
+        if hb is None or hb is self.b or hb.argc != len(call[2]):
+            return None
+        return Canon(self.prog, hb, None, self.inline, argmap=list(call[2]), follow=False)
+
+    def helper_atoms(self, call, labels):
+        """Facts that hold whenever the crate-local helper called by `call` returns a value described by `labels`
+        ('true'/'false', Ok/Err, Some/None): the atoms common to all of its return sites producing such a value."""
+        labels = set(labels)
+        key = (render(call), tuple(sorted(map(str, labels))))
+        if key in self._hcache:
+            return self._hcache[key]
+        out = []
+        hc = self.helper(call)
+        if hc is not None:
+            sets = []
+            for s, e in hc.returns():
+                v = None
+                if e[0] == "const" and e[1] in (0, 1):
+                    v = {"true" if e[1] else "false"}
+                elif e[0] == "agg" and e[1] == "adt" and e[3]:
+                    v = {e[3]}
+                elif e[0] == "call" and re.search(r"FromResidual>::from_residual$", strip_generics(e[1])):
+                    v = {"Err", "None"}
+                if v is None:
+                    sets = None          # a return value we cannot classify: derive nothing
+                    break
+                if v & labels:
+                    sets.append(set(hc.guards(s.bb)))
+            if sets:
+                out = list(set.intersection(*sets))
+        self._hcache[key] = out
+        return out
+
+    def edge_atoms(self, c, labels):
+        """atoms_of + what a crate-local helper used as the condition implies (one level)."""
+        out = list(atoms_of(c, labels))
+        inner = c[1] if c[0] == "discr" else c
+        neg = False
+        while inner[0] == "un" and inner[1] == "Not":
+            neg = not neg
+            inner = inner[2]
+        if inner[0] == "call" and self.follow is not False:
+            ls = set(labels)
+            if neg and ls <= {"true", "false"}:
+                ls = {"false" if l == "true" else "true" for l in ls}
+            if ls and (ls <= {"true", "false"} or ls <= {"Ok", "Err", "Some", "None"}) and len(ls) == 1:
+                out += self.helper_atoms(inner, ls)
+        return out
 
     def noise(self, bb):
         t = self.b.blocks[bb]["term"]
@@ -284,7 +345,7 @@ class Canon:
 
         def dpred(e, rendered, want):
             try:
-                return any(pred(a) for a in atoms_of(self.x(e), {want}))
+                return any(pred(a) for a in self.edge_atoms(self.x(e), {want}))
             except Exception:
                 return False
         try:
@@ -308,7 +369,7 @@ class Canon:
             for tgt, ls in labs.items():
                 if bb in self.b.reachable([tgt], blocked_nodes=[sw]) or tgt == bb:
                     allowed |= ls
-            out.extend(atoms_of(c, allowed))
+            out.extend(self.edge_atoms(c, allowed))
         return out
 
 
